@@ -1013,10 +1013,17 @@ def run(ctx):
         "acquisition / wait (plugin compute, Plugin.iter bookkeeping, saver writes are lock-free and thread-local)")
     ctx.assumptions.append("harness plugins are 1:1 (one chunk out per chunk of every dependency, aligned chunk "
                            "boundaries); worker pools (max_workers > 1) are outside the model: lazy is off there")
+    import resource
     tasks = build_tasks(ctx)
     t0 = time.time()
+    c0 = resource.getrusage(resource.RUSAGE_CHILDREN)
     results = run_tasks(tasks)
-    ctx.notes.append("exploration wall time %.1fs for %d tasks" % (time.time() - t0, len(tasks)))
+    c1 = resource.getrusage(resource.RUSAGE_CHILDREN)
+    cpu = (c1.ru_utime + c1.ru_stime) - (c0.ru_utime + c0.ru_stime)
+    ctx.notes.append("exploration wall time %.1fs for %d tasks; CPU time of the worker processes %.1fs "
+                     "(= %.1fs per core on 16 idle cores)" % (time.time() - t0, len(tasks), cpu, cpu / 16.0))
+    walls = sorted((r.get("wall", 0) for r in results), reverse=True)
+    ctx.notes.append("sum of task wall times %.1fs, longest task %.1fs" % (sum(walls), walls[0] if walls else 0))
     slow = sorted([r for r in results if "wall" in r], key=lambda r: -r["wall"])[:6]
     ctx.notes.append("slowest tasks: " + "; ".join("%s %s %d runs %.1fs" % (r["kind"], tag(r["case"]), r["runs"], r["wall"])
                                                    for r in slow))
